@@ -29,6 +29,13 @@ STUBS = UT.STUBS + ["interfaces are recording subclasses of armi.interfaces.Inte
 # are silently skipped.  With the flag set the reference models that behaviour so the check stays green; set it to
 # False to see the violation.
 KNOWN_DEFECT_halt_skips_rest_of_event = False  # repaired in /repo (fix: commit 8702a81)
+# Candidate genuine defect: with tightCoupling on and tightCouplingMaxNumIters = 0 (nothing validates the setting)
+# Operator._performTightCoupling raises UnboundLocalError at the first node of a cycle that is not exempt: `converged`
+# is only bound inside `for coupledIteration in range(cap)`.  Plain Python:
+#   cs = cs.modified(newSettings={"tightCoupling": True, "tightCouplingMaxNumIters": 0}); o = Operator(cs); o.r = r
+#   o._performTightCoupling(0, 0)    ->  UnboundLocalError: local variable 'converged' referenced before assignment
+# While the flag is set the cap ranges over 1..n only.
+KNOWN_DEFECT_zero_iteration_cap = False  # repaired in /repo (fix: 634bdb2)
 
 
 def _cycles(ms, steps=None, pfs=None, avail=None):
@@ -47,7 +54,7 @@ def _layout(ctx, n, maxM):
     return [pick(ctx.int("m%d" % i, 0, maxM), 0, maxM) for i in range(n)]
 
 
-def _run(cs, start, specs, answers=(), extra=None):
+def _run(cs, start, specs, answers=(), extra=None, minimalKwargs=False, beforeRun=None):
     """Build operator + recording stack from specs with the real addInterface, run the real main loop."""
     r = UT.mk_reactor(*start)
     o = UT.mk_operator(cs, r)
@@ -57,8 +64,21 @@ def _run(cs, start, specs, answers=(), extra=None):
     for s in specs:
         cls = DbRec if s.isDb else Rec
         i = cls(r, cs, log, s.name, function=("f_" + s.name), haltCycle=s.haltCycle, convPool=pool, extra=extra,
-                haltValue=s.haltValue, idleValue=s.idleValue, restartAt=s.restartAt)
-        o.addInterface(i, reverseAtEOL=s.reverse, enabled=s.enabled, bolForce=s.bolForce)
+                haltValue=s.haltValue, idleValue=s.idleValue, restartAt=s.restartAt, selfOff=s.selfOff)
+        if minimalKwargs:
+            # the way Operator.createInterfaces attaches: only the arguments that differ from the defaults are passed
+            kw = {}
+            if s.reverse:
+                kw["reverseAtEOL"] = True
+            if not s.enabled:
+                kw["enabled"] = False
+            if s.bolForce:
+                kw["bolForce"] = True
+            o.addInterface(i, **kw)
+        else:
+            o.addInterface(i, reverseAtEOL=s.reverse, enabled=s.enabled, bolForce=s.bolForce)
+    if beforeRun is not None:
+        beforeRun(o)
     o.operate()
     return o, r, log
 
@@ -114,6 +134,49 @@ def active_interfaces_once_each_in_stack_order(ctx, n, maxM, fixed):
     hit = not sym[0].enabled and sym[0].bolForce and sym[-1].reverse and sym[-1].enabled and not sym[-1].deferred
     _compare(ctx, got, want, canary_hit=hit)
     ctx.check("the run ends in the last node of the last cycle", (r.p.cycle, r.p.timeNode) == (n - 1, ms[-1]))
+
+
+# ---------------------------------------------------------------------------------------------------------------
+
+OWN_QUICK = [dict(fixed=0, maxM=1), dict(fixed=2, maxM=0)]
+OWN_THOROUGH = [dict(fixed=None, maxM=0), dict(fixed=1, maxM=1)]
+
+
+@harness("C15", bounds="the interface's OWN enabled state when it is attached x the arguments of addInterface: stack of 3 "
+                       "interfaces, two of them (all three in the thorough tier) with symbolic: switched itself off in "
+                       "its constructor (self.enabled(False), as interfaces do that find nothing to do for the case) / "
+                       "enabled argument / bolForce argument (the first interface reverse-at-EOL); arguments equal to the "
+                       "defaults are omitted from the call, as createInterfaces does; 1..2 cycles x 0..1 burn steps (symbolic)",
+         stubs=STUBS, max_paths=20000, instances={"quick": OWN_QUICK, "thorough": OWN_THOROUGH})
+def attaching_never_switches_on_an_interface_that_is_off(ctx, fixed, maxM):
+    n = pick(ctx.int("nCycles", 1, 2), 1, 2)
+    ms = [pick(ctx.int("m%d" % i, 0, maxM), 0, maxM) for i in range(2)][:n]
+    specs = []
+    for k, nm in enumerate(("A", "B", "C")):
+        if k == fixed:
+            specs.append(IfaceSpec(nm))
+            continue
+        specs.append(IfaceSpec(nm, selfOff=flag(ctx.bool("switchedItselfOff_" + nm)),
+                               enabled=flag(ctx.bool("enabledArgument_" + nm)),
+                               bolForce=flag(ctx.bool("bolForce_" + nm)), reverse=(k == 0)))
+    cs = UT.mk_cs(nCycles=n, cycles=_cycles(ms), power=1.0e6, burnSteps=None)
+    state = []
+    o, r, got = _run(cs, (0, 0), specs, minimalKwargs=True,
+                     beforeRun=lambda o: state.extend((i.name, i.enabled(), i.bolForce()) for i in o.interfaces))
+    sym = [s for k, s in enumerate(specs) if k != fixed]
+    want_state = [(s.name, s.enabled and not s.selfOff, s.bolForce) for s in specs]
+    if ctx.canary and sym[0].selfOff and sym[0].bolForce and not sym[-1].selfOff and not sym[-1].enabled and n == 2:
+        want_state[-1] = (want_state[-1][0], not want_state[-1][1], want_state[-1][2])
+    ctx.check("after attaching, an interface is enabled iff it had not switched itself off AND was not attached with "
+              "enabled=False; it is BOL-forced iff attached with bolForce=True", state == want_state)
+    want = reference_schedule(ms, (0, 0), specs)
+    _compare(ctx, got, want)
+    for evName in ("BOC", "EveryNode", "EOC"):
+        ctx.check("%s: an interface that is off (by itself or by the enabled argument) is never called" % evName,
+                  not any(e[0] == evName and e[1] in [s.name for s in specs if s.selfOff or not s.enabled] for e in got))
+    ctx.check("BOL: an interface that is off is called iff it is BOL-forced",
+              [e[1] for e in got if e[0] == "BOL"] ==
+              [s.name for s in specs if (s.enabled and not s.selfOff) or s.bolForce])
 
 
 # ---------------------------------------------------------------------------------------------------------------
@@ -257,7 +320,7 @@ COUPLED_THOROUGH = [dict(n=1, maxM=1, couplers=2, maxIt=3), dict(n=2, maxM=2, co
                     dict(n=3, maxM=1, couplers=1, maxIt=2)]
 
 
-@harness("C15", bounds="tight coupling symbolic on/off, tightCouplingMaxNumIters symbolic 1..3, skip-cycle membership "
+@harness("C15", bounds="tight coupling symbolic on/off, tightCouplingMaxNumIters symbolic 0..3, skip-cycle membership "
                        "symbolic per cycle; 1..2 cycles x 0..1 steps; stack A, B, database with 0..2 couplers whose "
                        "convergence answers are symbolic Bools per call (arbitrary patterns); B's enabled flag "
                        "symbolic", stubs=STUBS, max_paths=40000,
@@ -265,7 +328,10 @@ COUPLED_THOROUGH = [dict(n=1, maxM=1, couplers=2, maxIt=3), dict(n=2, maxM=2, co
 def coupled_iterations_until_converged_or_cap(ctx, n, maxM, couplers, maxIt):
     ms = _layout(ctx, n, maxM)
     coupling = flag(ctx.bool("tightCoupling"))
-    cap = pick(ctx.int("tightCouplingMaxNumIters", 1, maxIt), 1, maxIt)
+    # an iteration cap of 0 is a legal setting (no validation forbids it): "until ... the iteration cap is reached"
+    # then means no coupled iteration at all; the node is still handed to the database
+    capLo = 1 if KNOWN_DEFECT_zero_iteration_cap else 0
+    cap = pick(ctx.int("tightCouplingMaxNumIters", capLo, maxIt), capLo, maxIt)
     skip = [c for c in range(n) if flag(ctx.bool("skipCycle%d" % c))]
     enB = flag(ctx.bool("enabled_B"))
     nodes = sum(m + 1 for m in ms)
